@@ -1,2 +1,54 @@
-(* C19 - comparison and difference tools (theorems added as they are proved) *)
-From BSE Require Import Model.Val Model.Compare.
+(* C19 - comparison and difference tools agree with exact equality of the data.  Statements: Proofs/CompareDefs.v. *)
+From Coq Require Import Sorting.Permutation.
+From BSE Require Import Model.Val Model.Num Model.Basis Model.Compare Proofs.CompareDefs Proofs.CompareSpec.
+
+(* zero tolerance: equal exactly when the entries are pairwise equal by SIGNED exact value *)
+Theorem compare_vector_zero_tol : compare_vector_zero_tol_stmt.
+Proof. exact CompareSpec.compare_vector_zero_tol. Qed.
+Print Assumptions compare_vector_zero_tol.
+
+Theorem compare_vector_total : compare_vector_total_stmt.
+Proof. exact CompareSpec.compare_vector_total. Qed.
+Print Assumptions compare_vector_total.
+
+Theorem sign_flip_differs : sign_flip_differs_stmt.
+Proof. exact CompareSpec.sign_flip_differs. Qed.
+Print Assumptions sign_flip_differs.
+
+(* with a tolerance: equal exactly when every pair is within the relative tolerance (or identical) *)
+Theorem compare_vector_tol : compare_vector_tol_stmt.
+Proof. exact CompareSpec.compare_vector_tol. Qed.
+Print Assumptions compare_vector_tol.
+
+(* shells: same momenta and the same sorted row table by signed value.  _partial: the contraction order handed to the model
+   (the float-keyed order sort_shell computes) must consist of valid contraction indices; without that the statement is false
+   of the model (CompareSpec.compare_shells_zero_tol_false) *)
+Theorem compare_shells_zero_tol_partial :
+  forall s1 s2, shell_ok s1 -> shell_ok s2 -> cidx_ok s1 -> cidx_ok s2 ->
+    (compare_electron_shells 0 1 false s1 s2 = inr true <->
+     am (fst s1) = am (fst s2) /\ rows_equal (shell_rows (sorted_of s1)) (shell_rows (sorted_of s2))).
+Proof. exact CompareSpec.compare_shells_zero_tol_partial. Qed.
+Print Assumptions compare_shells_zero_tol_partial.
+
+Theorem is_subset_spec : is_subset_spec_stmt.
+Proof. exact CompareSpec.is_subset_spec. Qed.
+Print Assumptions is_subset_spec.
+
+(* equal length + mutual subset = a bijection up to the equivalence, on lists without equivalent duplicates (order of shells
+   does not matter, nothing may be dropped or doubled) *)
+Theorem shells_equal_perm : shells_equal_perm_stmt.
+Proof. exact CompareSpec.shells_equal_perm. Qed.
+Print Assumptions shells_equal_perm.
+
+(* diff: precisely the left shells that no right shell equals, in order *)
+Theorem subtract_spec : subtract_spec_stmt.
+Proof. exact CompareSpec.subtract_spec. Qed.
+Print Assumptions subtract_spec.
+
+Theorem subtract_sublist : subtract_sublist_stmt.
+Proof. exact CompareSpec.subtract_sublist. Qed.
+Print Assumptions subtract_sublist.
+
+Example sign_demo : compare_vector 0 1 ["1.0"; "-0.5"] ["1.00"; "-5.0E-01"] = inr true /\
+                    compare_vector 0 1 ["1.0"; "-0.5"] ["1.0"; "0.5"] = inr false.
+Proof. vm_compute. split; reflexivity. Qed.
